@@ -1309,8 +1309,13 @@ def main():
         if not quick:
             hitems.append((4, lay4, lay_, (1, 1), (3, 2)))
             hitems.append((4, lay4, lay_, (3, 1), (2, 2)))
+            hitems.append((4, lay4, lay_, (2, 3), (3, 2)))
+            hitems.append((4, lay4, lay_, (3, 3), (1, 1)))
     for lay_ in lay3:
         hitems.append((3, lay3, lay_, (2, 1), (1, 2)))
+        if not quick:
+            hitems.append((3, lay3, lay_, (3, 2), (2, 3)))
+            hitems.append((3, lay3, lay_, (1, 3), (3, 1)))
     for it_ in hitems:
         run.merge(h5_item(it_))
     run.merge(restart_domain_item(None))
